@@ -132,9 +132,13 @@ def run_case(seed, dynamic=False, family=None):
     from keras_tuner.engine import hyperparameters as hpm
     from keras_tuner.tuners import gridsearch
     rng = random.Random(seed)
-    spec = gen_space(rng) if family != "retry" else gen_space_retry(rng)
-    full = hpm.HyperParameters(); objs = []
-    declare(full, spec, objs, rng)
+    for _attempt in range(50):
+        spec = gen_space(rng) if family != "retry" else gen_space_retry(rng)
+        full = hpm.HyperParameters(); objs = []
+        declare(full, spec, objs, rng)
+        # keep the grid small enough for the model to enumerate it inside Coq in seconds (a 4-entry space can have > 1000 combinations)
+        if len(all_combos(full)) <= 150:
+            break
     upfront = None
     if dynamic:
         k = rng.randint(0, max(0, len(spec) - 1)) if family != "retry" else 1
